@@ -388,6 +388,9 @@ func runBatch(ck *Check, agg *Agg, tier string, seed int64, b batch, workDir, ex
 	cmd.Stderr = logf
 	cmd.Dir = workDir
 	cmd.Env = append(os.Environ(), "GOTRACEBACK=all")
+	if ck.ChildEnv != nil {
+		cmd.Env = append(cmd.Env, ck.ChildEnv(b.from)...)
+	}
 	if ck.Race {
 		cmd.Env = append(cmd.Env, "GORACE=halt_on_error=0 exitcode=0 log_path="+out+".race")
 	}
@@ -590,6 +593,9 @@ func confirmStall(ck *Check, tier string, seed int64, idx int, workDir, exe stri
 	cmd := exec.Command(exe, "child", ck.ID, tier, strconv.FormatInt(seed, 10), strconv.Itoa(idx), strconv.Itoa(idx+1), o2)
 	cmd.Stdout, cmd.Stderr, cmd.Dir = logf, logf, workDir
 	cmd.Env = append(os.Environ(), "GOTRACEBACK=all")
+	if ck.ChildEnv != nil {
+		cmd.Env = append(cmd.Env, ck.ChildEnv(idx)...)
+	}
 	if err := cmd.Start(); err != nil {
 		logf.Close()
 		return false, ""
